@@ -4,7 +4,7 @@ import "verif/harness/internal/core"
 
 func init() {
 	registry["C06"] = func(c *core.Ctx, replay string) {
-		g := tqGen{cfg: "TQ_small.cfg", pinned: "TQ_pinned.cfg", budget: 700, perts: 2, conc: []int{1, 3, 8}}
+		g := tqGen{cfg: "TQ_small.cfg", pinned: "TQ_pinned.cfg", budget: 600, perts: 2, conc: []int{1, 3, 8}, extraCfg: "TQ_pair.cfg", extraBudget: 300}
 		if !c.Quick() {
 			g = tqGen{cfg: "TQ_mid.cfg", pinned: "TQ_pinned.cfg", budget: 5000, perts: 4, conc: []int{1, 2, 3, 8},
 				simulate: "num=3000", simCfg: "TQ_big.cfg"}
@@ -14,7 +14,7 @@ func init() {
 		runTQ(c, c06Owner, g)
 	}
 	registry["C15"] = func(c *core.Ctx, replay string) {
-		g := tqGen{cfg: "TQ_retry.cfg", pinned: "TQ_pinned.cfg", budget: 600, perts: 2, conc: []int{1, 2, 8}}
+		g := tqGen{cfg: "TQ_retry.cfg", pinned: "TQ_pinned.cfg", budget: 500, perts: 2, conc: []int{1, 2, 8}, extraCfg: "TQ_pair.cfg", extraBudget: 250}
 		if !c.Quick() {
 			g = tqGen{cfg: "TQ_retry3.cfg", pinned: "TQ_pinned.cfg", budget: 4000, perts: 4, conc: []int{1, 2, 4, 8},
 				simulate: "num=3000", simCfg: "TQ_big.cfg"}
